@@ -535,7 +535,7 @@ func SetSlice(dest reflect.Value, objects interface{}) error {
 		h.add(dest)
 		// the referenced list is usually complete already: bind it now
 		// (if it is still being read, notify re-binds every destination at its end)
-		if cv, err := ConvertSliceValueType(destTyp, h.value); err == nil && cv.IsValid() {
+		if cv, err := h.convertedTo(destTyp); err == nil && cv.IsValid() {
 			SetValue(dest, cv)
 		}
 		return nil
